@@ -219,6 +219,23 @@ theorem norm_inf (a : Arr Rat) (m : Nat) (hm : 0 < m) (hs : a.shape = [m]) (hw :
     exact ⟨x, hx, hxe.symm⟩
   · intro x hx; exact hmax _ (List.mem_map.2 ⟨x, hx, rfl⟩)
 
+/-- the two-axis arm refuses an axis outside the rank (repair e1ca2b8): whatever the order and `keepdims`, when either
+normalised axis is below `0` or not below the rank the answer is an error value (`ParameterError` when the two
+normalised axes coincide — that check comes first — and `AxisOutOfBounds` otherwise), never a norm along a wrapped axis. -/
+theorem norm_two_axes_out_of_range (a : Arr Rat) (ord : Option Ord) (ax0 ax1 : Int) (keep : Bool)
+    (h : normAxis a.ndim ax0 < 0 ∨ normAxis a.ndim ax0 ≥ a.ndim ∨ normAxis a.ndim ax1 < 0 ∨ normAxis a.ndim ax1 ≥ a.ndim) :
+    normArr a ord (some [ax0, ax1]) keep = .err .ParameterError ∨
+    normArr a ord (some [ax0, ax1]) keep = .err .AxisOutOfBounds := by
+  unfold normArr
+  by_cases heq : normAxis a.ndim ax0 = normAxis a.ndim ax1
+  · left; simp [heq]
+  · right
+    by_cases h0 : normAxis a.ndim ax0 < 0 ∨ normAxis a.ndim ax0 ≥ a.ndim
+    · simp [heq, h0]
+    · have h1 : normAxis a.ndim ax1 < 0 ∨ normAxis a.ndim ax1 ≥ a.ndim := by omega
+      simp [heq, h0, h1]
+
+
 /-! ## qr (exact Gram–Schmidt; `Q[i][k] = us[k][i] / √nrm2[k]`, `R[k][c] = ru[k][c] / √nrm2[k]`) -/
 
 /-- **orthonormal columns**: distinct Gram–Schmidt vectors are orthogonal, and `nrm2[k]` is the squared length of the
@@ -325,5 +342,8 @@ example : (qrMat 2 (toMat 2 2 [2, 1, 1, 3])).us = [[2, 1], [-1, 2]] ∧ (qrMat 2
   decide +kernel
 example : normArr ⟨[3, -4], [2]⟩ (some .inf) none false = .ok ⟨[.rat 4], [1]⟩ := by decide +kernel
 example : normArr ⟨[3, -4], [2]⟩ none none false = .ok ⟨[.root 2 25], [1]⟩ := by decide +kernel
+
+example : normArr ⟨[-7], [1]⟩ (some (.int 1)) (some [0, 1]) false = .err .AxisOutOfBounds := by decide +kernel
+example : normArr ⟨[1, 2, 3, 4], [2, 2]⟩ (some .inf) (some [0, -3]) true = .err .AxisOutOfBounds := by decide +kernel
 
 end ArrModel.C15
